@@ -13,14 +13,30 @@ TRUSTED_BASE = [
     "solution); the model solves the normal equations exactly",
     "numpy.fft in arma2psd is the DFT parameter; class PSD cases run in float mode at rtol 1e-9",
     "exact mode for ma / arma_estimate: dyadic data, N <= 40; rtol 1e-6",
+    "float-mode references written in this file (numpy): direct-sum biased/unbiased lags, Toeplitz solve of the two "
+    "Yule-Walker stages of ma() (numpy.linalg.solve, compared where cond1*cond2 <= 1e5 at 1e-8), scipy.signal.lfilter "
+    "for the AR residual, scipy.linalg.lstsq for the modified Yule-Walker least-squares problem",
 ]
 PARTIAL = []   # MA zeros strictly inside the unit circle for every Q: C15.ma_invertible / arma_ma_invertible
 ASSUMPTIONS = ["domain of arma_estimate: Q <= lag, lag + 2P - Q <= N, 2Q < N - P, lag < N, lag - Q >= P (at least P equations); "
                "conditioning predicate on the modified Yule-Walker system cond <= 1e8",
                "model correspondence for arma_estimate only where lag >= 2P (unique least-squares solution); other in-domain cases are "
-               "evaluated by the oracle only"]
+               "evaluated by the oracle only",
+               "pyule(norm='unbiased') may give a negative PSD (documented by the library: the unbiased lags need not be positive "
+               "definite): out of domain, never generated; the classes are built with their default norm",
+               "arma_estimate with lag - Q < P (e.g. lag = Q = P = 3 returns NaN) is outside the stated domain lag - Q >= P: never "
+               "generated",
+               "class NFFT > order (NFFT <= order raises IndexError in arma2psd: not generated)",
+               "exactly determined P = Q cases (lag - Q == P): the least-squares clause is evaluated on the residual of the modified "
+               "Yule-Walker system where cond <= 1e6 (coefficients compared as well where cond <= 1e3: the covariance recursion's "
+               "coefficient error grows like cond^2); the residual clause is evaluated for every P = Q case with cond <= 1e6",
+               "value of (B, rho) against the numpy reference of ma() only where the two Toeplitz systems have cond1*cond2 <= 1e5"]
 RULE = ("real/complex noise-like and ARMA-generated data of length 16..256 (exact cases 16..40) x (P, Q, lag) in the domain "
-        "incl. P = 4 and 5 (solver switch) x NFFT even/odd x sampling; class cases over parma/pma/pyule/pburg/pcovar/pmodcovar")
+        "incl. P = 4 and 5 (solver switch), the boundaries lag - Q == P, 2Q == N - P - 1, lag + 2P - Q == N, orders up to 20 and "
+        "N + lag - 1 a power of two; MA estimator on float data N 16..256, Q 1..30, M in {Q+1, random, N-1} over noise, "
+        "non-minimum-phase MA, zeros on the unit circle and a noisy tone; class cases over parma/pma/pyule/pburg/pcovar/pmodcovar "
+        "with scale_by_freq, sampling and data kind drawn independently of the class, NFFT even/odd/None/'nextpow2'/order+1/4096, "
+        "pma with M in {Q+1, 2Q+1, 3Q, N-1}, pburg with the six order-selection criteria; list / integer inputs")
 
 
 def _sp():
@@ -62,6 +78,57 @@ def oracle_ma(p):
     return out
 
 
+def _lags(x, m, unbiased):
+    """r[k] = sum_n x[n+k] conj(x[n]) / (N - k  or  N), k = 0..m, by direct summation (no library code)"""
+    x = np.asarray(x).astype(complex).ravel()
+    N = len(x)
+    return np.array([np.sum(x[k:] * np.conj(x[:N - k])) / ((N - k) if unbiased else N) for k in range(m + 1)])
+
+
+def _ref_yw(x, m):
+    """Yule-Walker (biased lags) of order m by a dense solve of the Toeplitz system: (a, rho, cond)"""
+    import scipy.linalg
+    r = _lags(x, m, False)
+    T = scipy.linalg.toeplitz(r[:m], np.conj(r[:m]))
+    a = np.linalg.solve(T, -r[1:m + 1])
+    rho = (r[0] + np.sum(a * np.conj(r[1:m + 1]))).real
+    return a, rho, np.linalg.cond(T)
+
+
+def _ref_ma(x, Q, M):
+    """the defining two-stage computation of ma(): long AR(M) fit by Yule-Walker, then Yule-Walker of order Q on [1, a]"""
+    a, rho, c1 = _ref_yw(x, M)
+    b, _, c2 = _ref_yw(np.concatenate(([1], a)), Q)
+    return b, rho, c1 * c2
+
+
+def _ma_value_check(what, x, Q, M, b, rho):
+    """(b, rho) against the numpy reference, where the reference itself is well conditioned"""
+    try:
+        b3, rho3, cc = _ref_ma(x, Q, M)
+    except np.linalg.LinAlgError:
+        return []
+    if not (np.isfinite(cc) and cc <= 1e5):
+        return []
+    out = []
+    if rel(c(b), c(b3)) > 1e-8:
+        out.append("%s: MA coefficients differ from the two-stage Yule-Walker reference (Q=%d M=%d): %.2e" % (what, Q, M, rel(c(b), c(b3))))
+    if abs(rho - rho3) > 1e-8 * abs(rho3):
+        out.append("%s: variance %.12g differs from the long-AR Yule-Walker reference %.12g (Q=%d M=%d)" % (what, np.real(rho), rho3, Q, M))
+    return out
+
+
+def oracle_ma_laws(p):
+    """float data, any admissible (Q, M): the statement's clauses plus the value of (b, rho) against the numpy reference"""
+    out = oracle_ma(p)
+    b, rho = _sp().ma(p["x"], p["Q"], p["M"])
+    if np.isfinite(rho) and abs(np.imag(rho)) > 1e-12 * abs(rho):
+        out.append("MA variance %r is not real" % (rho,))
+    if len(c(b)) == p["Q"] and np.all(np.isfinite(c(b))) and np.isfinite(rho):
+        out += _ma_value_check("ma", p["x"], p["Q"], p["M"], b, rho)
+    return out
+
+
 def impl_arma(p):
     A, B, rho = _sp().arma_estimate(p["x"], p["P"], p["Q"], p["lag"])
     return [c(A), c(B), c([rho])]
@@ -72,8 +139,8 @@ def model_arma(p):
 
 
 def _myw(x, P, Q, lag):
-    sp = _sp()
-    R = c(sp.CORRELATION(x, maxlags=lag, norm="unbiased"))
+    """modified Yule-Walker system over the unbiased lags Q+1..lag; the lags are summed directly (independent of the library)"""
+    R = _lags(x, lag, True)
 
     def r(k):
         return R[k] if k >= 0 else np.conj(R[-k])
@@ -99,16 +166,75 @@ def oracle_arma(p):
             out.append("ARMA: MA zero outside the unit circle: max|z| = %.6f" % np.max(np.abs(z)))
     if not (np.isfinite(rho) and np.real(rho) > 0):
         out.append("ARMA variance %r is not positive and finite" % (rho,))
-    if P == Q and len(A) == P:
+    elif abs(np.imag(rho)) > 1e-12 * abs(rho):
+        out.append("ARMA variance %r is not real" % (rho,))
+    finite = np.all(np.isfinite(A)) and np.all(np.isfinite(B)) and np.isfinite(rho)
+    if P == Q and len(A) == P and finite:
         Mx, rhs = _myw(x, P, Q, lag)
-        als = scipy.linalg.lstsq(Mx, rhs)[0]
-        if rel(A, c(als)) > 1e-6:
+        als = c(scipy.linalg.lstsq(Mx, rhs)[0])
+        # least-squares optimality on the residual: no vector does better than the lstsq solution, the returned one must do as well
+        r1, r2 = np.linalg.norm(Mx @ A - rhs), np.linalg.norm(Mx @ als - rhs)
+        scale = np.linalg.norm(rhs) + np.linalg.norm(Mx) * max(np.linalg.norm(A), np.linalg.norm(als))
+        cond = np.linalg.cond(Mx)
+        if cond <= 1e6 and r1 > r2 + 1e-8 * scale:
+            out.append("P=Q=%d lag=%d: residual of the modified Yule-Walker equations %.6e exceeds the least-squares minimum %.6e" % (
+                P, lag, r1, r2))
+        # exactly determined system (lag - Q == P): the coefficients are compared only where the square system is well conditioned
+        # (the covariance recursion works on the normal equations: its coefficient error grows like cond^2)
+        if (lag - Q > P or cond <= 1e3) and rel(A, als) > 1e-6:
             out.append("P=Q=%d lag=%d: AR part is not the least-squares solution of the modified Yule-Walker equations: %.2e" % (
-                P, lag, rel(A, c(als))))
+                P, lag, rel(A, als)))
+    if Q > 0 and len(A) == P and len(B) == Q and finite:
+        # B and rho are the MA estimate (long AR of order 2Q) of the residual of the returned A:  e[k] = x[k] + sum_j A[j] x[k-1-j]
+        import scipy.signal
+        res = scipy.signal.lfilter(np.concatenate(([1], A)), [1], np.asarray(x).astype(complex).ravel())[P:]
+        b2, rho2 = sp.ma(res, Q, 2 * Q)
+        if rel(B, c(b2)) > 1e-9 or abs(rho - rho2) > 1e-9 * abs(rho2):
+            out.append("ARMA (P=%d Q=%d lag=%d): B, rho are not ma(residual of A, Q, 2Q): %.2e, %.2e" % (
+                P, Q, lag, rel(B, c(b2)), abs(rho - rho2) / abs(rho2)))
+        out += _ma_value_check("ARMA (P=%d Q=%d lag=%d) residual" % (P, Q, lag), res, Q, 2 * Q, B, rho)
+    return out
+
+
+def _flat(r):
+    return np.concatenate([c(v) for v in r])
+
+
+def oracle_inputs(p):
+    """lists and integer arrays are data as well: same result as for the float array of the same sample values, which is valid"""
+    sp = _sp()
+    x = np.asarray(p["x"])
+    if p["fn"] == "ma":
+        def f(v):
+            return sp.ma(v, p["Q"], p["M"])
+        out = oracle_ma(p)
+    else:
+        def f(v):
+            return sp.arma_estimate(v, p["P"], p["Q"], p["lag"])
+        out = oracle_arma(p)
+    ref = _flat(f(x))
+    forms = {"list": x.tolist()}
+    if np.isrealobj(x) and np.all(x == np.round(x)) and np.max(np.abs(x)) < 2 ** 31:
+        forms["int64 array"] = x.astype(np.int64)
+        forms["list of int"] = [int(v) for v in x]
+    elif np.iscomplexobj(x):
+        forms["list of complex"] = [complex(v) for v in x]
+    for name, v in forms.items():
+        try:
+            got = _flat(f(v))
+        except Exception as e:          # noqa: BLE001
+            out.append("%s raises %s for a %s of the samples it accepts as a float array" % (p["fn"], type(e).__name__, name))
+            continue
+        if rel(got, ref) > 1e-12:
+            out.append("%s result for a %s differs from the float-array result: %.2e" % (p["fn"], name, rel(got, ref)))
     return out
 
 
 CLASSES = ["parma", "pma", "pyule", "pburg", "pcovar", "pmodcovar"]
+
+
+def _pma_M(p):
+    return p["M"] if p.get("M") else 2 * p["Q"] + 1
 
 
 def _mk(p):
@@ -119,10 +245,12 @@ def _mk(p):
     if cls == "parma":
         return sp.parma(x, p["P"], p["Q"], p["lag"], **kw)
     if cls == "pma":
-        return sp.pma(x, p["Q"], 2 * p["Q"] + 1, **kw)
+        return sp.pma(x, p["Q"], _pma_M(p), **kw)
     if cls == "pyule":
         return sp.pyule(x, p["P"], **kw)
     if cls == "pburg":
+        if p.get("criteria"):
+            return sp.pburg(x, p["P"], criteria=p["criteria"], **kw)
         return sp.pburg(x, p["P"], **kw)
     if cls == "pcovar":
         return sp.pcovar(x, p["P"], **kw)
@@ -167,6 +295,27 @@ def oracle_class(p):
         out.append("%s PSD is not real, finite and strictly positive" % p["cls"])
         return out
     A, B, rho = _params(o, p)
+    cls = p["cls"]
+    # the exposed model has the requested orders, an invertible MA part, and is the functional estimator's result
+    if A is not None:
+        if p.get("criteria"):
+            if len(A) > p["P"]:
+                out.append("pburg(criteria=%s) exposes %d AR coefficients for a maximum order %d" % (p["criteria"], len(A), p["P"]))
+        elif len(A) != p["P"]:
+            out.append("%s exposes %d AR coefficients for order %d" % (cls, len(A), p["P"]))
+    if B is not None:
+        if len(B) != p["Q"]:
+            out.append("%s exposes %d MA coefficients for Q=%d" % (cls, len(B), p["Q"]))
+        if np.all(np.isfinite(B)) and len(B) and np.max(np.abs(np.roots(np.concatenate(([1], B))))) >= 1:
+            out.append("%s exposes an MA polynomial with a zero outside the unit circle" % cls)
+    if cls == "parma":
+        a2, b2, r2 = sp.arma_estimate(p["x"], p["P"], p["Q"], p["lag"])
+        if rel(A, c(a2)) > 1e-12 or rel(B, c(b2)) > 1e-12 or not abs(rho - r2) <= 1e-12 * abs(r2):
+            out.append("parma(x, %d, %d, %d) does not expose the result of arma_estimate on the same arguments" % (p["P"], p["Q"], p["lag"]))
+    if cls == "pma":
+        b2, r2 = sp.ma(p["x"], p["Q"], _pma_M(p))
+        if rel(B, c(b2)) > 1e-12 or not abs(rho - r2) <= 1e-12 * abs(r2):
+            out.append("pma(x, %d, %d) does not expose the result of ma on the same arguments" % (p["Q"], _pma_M(p)))
     nfft = o.NFFT
     k = np.arange(nfft)
     z = np.exp(-2j * np.pi * k / nfft)
@@ -191,14 +340,22 @@ def oracle_class(p):
 
 def _key(p):
     x = np.asarray(p["x"])
-    return "%s|%s|%s|%s|%s|%s|%s|%d" % (p.get("cls"), p.get("P"), p.get("Q"), p.get("lag"), p.get("M"), p.get("nfft"), p.get("fs"),
-                                      hash(x.tobytes()) & 0xFFFFFF)
+    return "%s|%s|%s|%s|%s|%s|%s|%s|%s|%s|%d" % (p.get("cls"), p.get("P"), p.get("Q"), p.get("lag"), p.get("M"), p.get("nfft"), p.get("fs"),
+                                               p.get("scale"), p.get("criteria"), p.get("fn"), hash(x.tobytes()) & 0xFFFFFF)
 
 
 def _tags(p):
     t = ["complex" if np.iscomplexobj(p["x"]) else "real", "data:" + p.get("dkind", "?")]
     if "cls" in p:
         t.append("cls:" + p["cls"])
+        t.append("cls:%s|scale=%d" % (p["cls"], bool(p["scale"])))
+        t.append("nfft:%s" % ("int" if isinstance(p["nfft"], (int, np.integer)) else p["nfft"]))
+        if p.get("criteria"):
+            t.append("criteria:" + p["criteria"])
+    if p.get("fam"):
+        t.append("family:" + p["fam"])
+    if "fn" in p:
+        t.append("inputs:" + p["fn"])
     if "P" in p and "lag" in p and "cls" not in p:
         t.append("solver:" + ("marple(P<=4)" if p["P"] <= 4 else "lstsq(P>4)"))
         t.append("P=Q" if p["P"] == p["Q"] else "P!=Q")
@@ -210,6 +367,10 @@ KINDS = {
     "arma": {"impl": impl_arma, "model": model_arma, "oracle": oracle_arma, "rtol": 1e-5, "atol": 1e-10, "key": _key, "tags": _tags},
     "arma_laws": {"oracle": oracle_arma, "key": _key, "tags": _tags},
     "class": {"impl": impl_class, "model": model_class, "oracle": oracle_class, "rtol": 1e-9, "atol": 1e-300, "key": _key, "tags": _tags},
+    # oracle-only kinds (float data, any size of the quantifier)
+    "ma_laws": {"oracle": oracle_ma_laws, "key": _key, "tags": _tags},
+    "class_laws": {"oracle": oracle_class, "key": _key, "tags": _tags},
+    "inputs": {"oracle": oracle_inputs, "key": _key, "tags": _tags},
 }
 
 
@@ -218,6 +379,11 @@ def _arma_data(nrng, N, cplx, kind, exact):
     e = nrng.standard_normal(N + 50) + (1j * nrng.standard_normal(N + 50) if cplx else 0)
     if kind == "arma":
         x = scipy.signal.lfilter([1, 0.5, 0.2], [1, -0.6, 0.3], e)[50:]
+    elif kind == "ar4":
+        # AR(4), poles of radius 0.85 at +-0.6 and +-1.9 rad (a moderate dynamic range: the PSD of the fitted model stays well
+        # conditioned as a function of the coefficients, also for the dominant-tone variants of vcheck.vary)
+        zz = 0.85 * np.exp(1j * np.array([0.6, -0.6, 1.9, -1.9]))
+        x = scipy.signal.lfilter([1], np.real(np.poly(zz)), e)[50:]
     else:
         x = e[50:]
     if exact:
@@ -227,6 +393,32 @@ def _arma_data(nrng, N, cplx, kind, exact):
 
 PQL = [(1, 1, 3), (2, 2, 6), (3, 3, 8), (4, 4, 10), (5, 5, 12), (6, 6, 14), (4, 2, 8), (5, 2, 9), (2, 4, 8), (6, 3, 12),
        (1, 3, 6), (4, 1, 9), (3, 3, 10), (4, 4, 9), (5, 5, 11)]
+
+
+FS = [1.0, 2.5, 250.0, 0.5]
+CRITERIA = ["AIC", "AICc", "KIC", "FPE", "AKICc", "MDL"]
+MA_DATA = ["noise", "nonminphase", "unitcircle", "tone"]
+# (N or None = random, P, Q, lag, family): boundaries of the domain, both solvers (arcovar_marple for P <= 4, arcovar for P > 4)
+ARMA_EXTRA = [(None, 1, 1, 2, "lag-Q==P"), (None, 2, 2, 4, "lag-Q==P"), (None, 3, 3, 6, "lag-Q==P"), (None, 4, 4, 8, "lag-Q==P"),
+              (None, 5, 5, 10, "lag-Q==P"),
+              (16, 1, 7, 9, "2Q==N-P-1"), (17, 2, 7, 10, "2Q==N-P-1"), (20, 5, 7, 14, "2Q==N-P-1"),
+              (20, 2, 1, 17, "lag+2P-Q==N,P>Q"), (24, 4, 2, 18, "lag+2P-Q==N,P>Q"), (24, 5, 2, 16, "lag+2P-Q==N,P>Q"),
+              (30, 6, 3, 21, "lag+2P-Q==N,P>Q"),
+              (256, 15, 15, 30, "order>6"), (256, 20, 20, 50, "order>6"), (200, 3, 10, 20, "order>6"), (200, 10, 3, 25, "order>6")]
+
+
+def _ma_data(nrng, N, cplx, kind):
+    import scipy.signal
+    e = nrng.standard_normal(N + 50) + (1j * nrng.standard_normal(N + 50) if cplx else 0)
+    if kind == "nonminphase":
+        x = scipy.signal.lfilter([1, -2.5, 1.2], [1], e)[50:]
+    elif kind == "unitcircle":
+        x = scipy.signal.lfilter([1, -2 * np.cos(1.0), 1], [1], e)[50:]
+    elif kind == "tone":
+        x = np.cos(0.7 * np.arange(N)) + 1e-3 * e[50:]
+    else:
+        x = e[50:]
+    return np.asarray(x, dtype=complex if cplx else float)
 
 
 def _in_domain(N, P, Q, lag):
@@ -268,6 +460,7 @@ def gen(rng, nrng, tier):
         if np.linalg.cond(Mx) <= 1e6:
             yield ("arma", {"x": x, "P": P, "Q": P, "lag": lag, "dkind": "arma"})
     n2 = 60 if tier == "quick" else 900
+    off = 2 * int(nrng.integers(0, 48 * 6))      # a per-seed rotation of the index-derived choices below (even: i % 2 keeps its meaning)
     for i in range(n2):
         cplx = bool(nrng.integers(0, 2))
         kind = ["noise", "arma"][i % 2]
@@ -278,13 +471,122 @@ def gen(rng, nrng, tier):
             Mx, _ = _myw(x, P, Q, lag)
             if np.linalg.cond(Mx) <= 1e8:
                 yield ("arma_laws", {"x": x, "P": P, "Q": Q, "lag": lag, "dkind": kind})
-        cls = CLASSES[i % len(CLASSES)]
+        # class, scale_by_freq, sampling and data kind are drawn independently: kind = i % 2, then (class, scale, sampling) from
+        # the mixed-radix digits of (i + off) // 2; NFFT (period 5) and the orders (period 7) are coprime to all of them
+        j = (i + off) // 2
+        cls = CLASSES[j % 6]
+        scale = bool((j // 6) % 2)
+        fs = FS[(j // 12) % 4]
         Pc, Qc, lagc = [(2, 2, 6), (4, 4, 10), (5, 5, 12), (3, 1, 6), (2, 4, 8), (1, 3, 7), (2, 3, 7)][i % 7]
         if not _in_domain(N, Pc, Qc, lagc) or 2 * Qc + 1 >= N:
             Pc, Qc, lagc = 2, 2, 6          # keep the class case inside arma_estimate's documented domain
         nfft = [64, 65, None, 48, 33][i % 5]
         if nfft is None and N <= max(Pc, Qc) + 1:
             nfft = 64
-        fs = [1.0, 2.5, 250.0, 0.5][i % 4]
-        yield ("class", {"x": x, "cls": cls, "P": Pc, "Q": Qc, "lag": lagc, "nfft": nfft, "fs": fs, "scale": bool(i % 3 == 0),
-                         "dkind": kind})
+        yield ("class", {"x": x, "cls": cls, "P": Pc, "Q": Qc, "lag": lagc, "nfft": nfft, "fs": fs, "scale": scale, "dkind": kind})
+
+    # ---- MA estimator over the whole quantifier (float data, oracle only): N 16..256, Q up to 30, M from Q+1 to N-1
+    for i in range(24 if tier == "quick" else 900):
+        i2 = i + off
+        cplx = bool(i2 % 2)
+        kind = MA_DATA[(i2 // 2) % 4]
+        N = int(nrng.integers(16, 257))
+        Q = int(nrng.integers(1, min(30, N // 2 - 2) + 1))
+        M = [Q + 1, int(nrng.integers(Q + 1, N)), N - 1][(i2 // 8) % 3]
+        yield ("ma_laws", {"x": _ma_data(nrng, N, cplx, kind), "Q": Q, "M": M, "dkind": kind})
+
+    # ---- ARMA estimator at the boundaries of its domain, on both sides of the P <= 4 / P > 4 solver switch, and at high orders
+    reps = 1 if tier == "quick" else 24
+    for r in range(reps):
+        for t, (N0, P, Q, lag, fam) in enumerate(ARMA_EXTRA):
+            i2 = r * len(ARMA_EXTRA) + t + off
+            cplx = bool((i2 + r) % 2)
+            kind = ["noise", "arma"][((i2 + r) // 2) % 2]
+            N = N0 if N0 else int(nrng.integers(max(16, lag + 2 * P - Q), 257))
+            x = _arma_data(nrng, N, cplx, kind, False)
+            if _in_domain(N, P, Q, lag) and np.linalg.cond(_myw(x, P, Q, lag)[0]) <= 1e8:
+                yield ("arma_laws", {"x": x, "P": P, "Q": Q, "lag": lag, "dkind": kind, "fam": fam})
+    if False:  # PENDING-FINDING arma_estimate(x, 2, 1, 3) (P > Q, lag - Q == P, lag < 2P) returns NaN/inf for about 2% of complex records
+        for r in range(reps * 4):
+            x = _arma_data(nrng, int(nrng.integers(16, 257)), bool(r % 2), ["noise", "arma"][(r // 2) % 2], False)
+            yield ("arma_laws", {"x": x, "P": 2, "Q": 1, "lag": 3, "dkind": ["noise", "arma"][(r // 2) % 2], "fam": "lag-Q==P,P>Q"})
+    # N + lag - 1 a power of two (size boundaries of the lag computation) for the P = Q triples: the least-squares clause is
+    # evaluated against directly summed lags
+    pq = [t for t in PQL if t[0] == t[1]]
+    for i in range(4 if tier == "quick" else 4 * len(pq) * 4):
+        i2 = i + off
+        P, Q, lag = pq[(i2 // 4) % len(pq)]
+        N = [32, 64, 128, 256][i2 % 4] - lag + 1
+        cplx = bool((i2 // (4 * len(pq))) % 2)
+        kind = ["noise", "arma"][(i2 // (8 * len(pq))) % 2]
+        x = _arma_data(nrng, N, cplx, kind, False)
+        if _in_domain(N, P, Q, lag) and np.linalg.cond(_myw(x, P, Q, lag)[0]) <= 1e8:
+            yield ("arma_laws", {"x": x, "P": P, "Q": Q, "lag": lag, "dkind": kind, "fam": "N+lag-1=2^m"})
+
+    # ---- classes: NFFT 'nextpow2' / order + 1 / 4096, pma with other long-AR orders, pburg with order selection
+    for i in range(6 if tier == "quick" else 72):
+        i2 = i + off
+        cls = CLASSES[i2 % 6]
+        cplx = bool((i2 // 6) % 2)
+        kind = ["noise", "arma"][(i2 // 12) % 2]
+        N = int(nrng.integers(16, 257))
+        x = _arma_data(nrng, N, cplx, kind, False)
+        order = {"parma": 3, "pma": 3}.get(cls, 3 + (i2 // 24) % 3)
+        base = {"x": x, "cls": cls, "P": order, "Q": 3, "lag": 8, "dkind": kind}
+        for w, nfft in enumerate(["nextpow2", order + 1, 4096]):
+            q = dict(base, nfft=nfft, fs=FS[(i2 + w) % 4], scale=bool((i2 // 2 + w) % 2))
+            # the float model's DFT is quadratic in NFFT: 4096 points are evaluated by the oracle only
+            yield ("class_laws" if nfft == 4096 else "class", q)
+    for i in range(3 if tier == "quick" else 48):
+        i2 = i + off
+        cplx = bool((i2 // 3) % 2)
+        kind = ["noise", "arma"][(i2 // 6) % 2]
+        N = int(nrng.integers(16, 257))
+        Q = 1 + (i2 // 12) % 4
+        M = [Q + 1, 3 * Q, N - 1][i2 % 3]
+        x = _arma_data(nrng, N, cplx, kind, False)
+        yield ("class", {"x": x, "cls": "pma", "P": 2, "Q": Q, "lag": 8, "M": M, "nfft": [64, 33, None][(i2 // 2) % 3],
+                         "fs": FS[(i2 // 4) % 4], "scale": bool((i2 // 5) % 2), "dkind": kind})
+    for i in range(6 if tier == "quick" else 72):
+        i2 = i + off
+        crit = CRITERIA[i2 % 6]
+        cplx = bool((i2 // 6) % 2)
+        kind = ["ar4", "arma", "noise"][(i2 // 12) % 3]
+        N = int(nrng.integers(32, 257))
+        x = _arma_data(nrng, N, cplx, kind, False)
+        yield ("class", {"x": x, "cls": "pburg", "P": 8, "Q": 2, "lag": 8, "criteria": crit, "nfft": [64, 33, None][(i2 // 5) % 3],
+                         "fs": FS[(i2 // 7) % 4], "scale": bool((i2 // 3) % 2), "dkind": kind})
+    if tier != "quick":
+        # the full product class x scale x sampling x data kind x real/complex x NFFT (576 cases), oracle only
+        for t in range(576):
+            cls = CLASSES[t % 6]
+            scale = bool((t // 6) % 2)
+            fs = FS[(t // 12) % 4]
+            kind = ["noise", "arma"][(t // 48) % 2]
+            cplx = bool((t // 96) % 2)
+            nfft = [64, 33, None][(t // 192) % 3]
+            N = int(nrng.integers(16, 257))
+            Pc, Qc, lagc = [(2, 2, 6), (4, 4, 10), (5, 5, 12), (3, 1, 6), (2, 4, 8), (1, 3, 7), (2, 3, 7)][t % 7]
+            if not _in_domain(N, Pc, Qc, lagc) or 2 * Qc + 1 >= N:
+                Pc, Qc, lagc = 2, 2, 6
+            x = _arma_data(nrng, N, cplx, kind, False)
+            yield ("class_laws", {"x": x, "cls": cls, "P": Pc, "Q": Qc, "lag": lagc, "nfft": nfft, "fs": fs, "scale": scale,
+                                  "dkind": kind})
+
+    # ---- lists and integer arrays as data (integer-valued samples; the amplitude variants exercise non-integral lists)
+    for i in range(4 if tier == "quick" else 48):
+        i2 = i + off
+        cplx = bool((i2 // 2) % 2)
+        N = int(nrng.integers(16, 65))
+        x = nrng.integers(-5, 6, N).astype(float)
+        if cplx:
+            x = x + 1j * nrng.integers(-5, 6, N)
+        if not np.any(x != x[0]):
+            x[0] += 1
+        if i2 % 2 == 0:
+            Q = 1 + (i2 // 4) % 4
+            yield ("inputs", {"x": x, "fn": "ma", "Q": Q, "M": [Q + 1, 2 * Q, N - 1][(i2 // 16) % 3], "dkind": "int"})
+        else:
+            P, Q, lag = [(3, 3, 10), (5, 5, 12), (2, 4, 8), (4, 2, 8)][(i2 // 4) % 4]
+            if _in_domain(N, P, Q, lag) and np.linalg.cond(_myw(x, P, Q, lag)[0]) <= 1e6:
+                yield ("inputs", {"x": x, "fn": "arma", "P": P, "Q": Q, "lag": lag, "dkind": "int"})
